@@ -7,6 +7,7 @@ GridB == {<<a, b, c, d>> : a \in 0..1, b \in 0..1, c \in 0..1, d \in 0..1}
 GridC == {<<0,0,0,0>>, <<1,0,0,0>>, <<0,1,0,0>>, <<0,0,1,0>>, <<0,0,0,1>>, <<1,1,0,0>>, <<0,0,1,1>>, <<1,1,1,1>>}
 GridQ == {<<0,0,0,0>>, <<1,0,0,0>>, <<0,1,0,0>>, <<0,0,1,0>>, <<1,1,0,1>>}   \* quick tier, 5 conditions
 GridL == {<<a, 0, 0, 0>> : a \in 0..4}                         \* collinear models (rank 1)
+N130 == 1..130                                                  \* design sweep
 Offs == {0, 1, 2, 3, 4, 5}                                      \* n_channel = n_cond .. 2 n_cond (off <= n)
 OffsNeg == {-1, 0, 1, 2, 3, 4, 5}                               \* with the negative control n_cond - 1
 OffsFew == {-1, 0, 1, 5}
